@@ -15,7 +15,8 @@ from ..engine.cfg import CFG
 from ..engine.nandomain import F, NanInterp, nan
 from ..engine.report import AnalysisError, Run
 from ..engine.resolver import ClassInfo, FuncInfo, Program, body_walk
-from ..engine.util import canon, method_call, node_has_call, nodes_with_call, u
+from ..engine.util import canon, method_call, nodes_with_call, u
+from ._c06_util import Flow, Site, lifted, names_eq, pruned, result_sites, select_ifexp, spliced, unawait
 
 STEPS = "timeseries.formula_engine._formula_steps"
 EVAL = "timeseries.formula_engine._formula_evaluator"
@@ -77,7 +78,7 @@ def arity_of(fn: FuncInfo) -> int:
 
 def check_steps(run: Run, prog: Program, drops_round: bool) -> None:
     for cls in step_classes(prog):
-        fn = cls.methods["apply"]
+        fn = spliced(prog, cls.methods["apply"])  # private helpers (module / class level) read as part of the step
         run.analysed(fn.qual)
         if cls.name == "MetricFetcher":
             continue
@@ -176,7 +177,7 @@ def _result_stmt(fn: FuncInfo) -> str:
 
 # ---------------------------------------------------------------------------------------------
 def check_fetcher(run: Run, prog: Program) -> None:
-    fn = prog.func(f"{STEPS}:MetricFetcher.apply")
+    fn = spliced(prog, prog.func(f"{STEPS}:MetricFetcher.apply"))
     run.analysed(fn.qual)
     param = fn.params[1]
     cases = 0
@@ -265,8 +266,6 @@ def check_output(run: Run, prog: Program) -> bool:
     conditional expression or a private helper -- must then be the None sample resp. the
     `create_method(result)` sample.
     """
-    from ._c06_util import Flow, Site, lifted, names_eq, pruned, result_sites, select_ifexp, unawait
-
     fn = prog.func(f"{EVAL}:FormulaEvaluator.apply")
     run.analysed(fn.qual)
     fl = Flow(prog, fn)
